@@ -6,10 +6,10 @@ UNITS = {
         {"name": "C01_BIN", "test": "TestC01_BIN", "quick": 120, "thorough": 2500, "shards": 4, "bin": True},
     ],
     "C02": [
-        {"name": "C02_FN", "test": "TestC02_FN", "quick": 20000, "thorough": 400000, "shards": 8},
-        {"name": "C02_INP", "test": "TestC02_INP", "quick": 1500, "thorough": 20000, "shards": 6},
+        {"name": "C02_FN", "test": "TestC02_FN", "quick": 20000, "thorough": 1000000, "shards": 8},
+        {"name": "C02_INP", "test": "TestC02_INP", "quick": 1500, "thorough": 60000, "shards": 6},
         {"name": "C02_IDLE", "test": "TestC02_IDLE", "quick": 4, "thorough": 48, "shards": 4},
-        {"name": "C02_BIN", "test": "TestC02_BIN", "quick": 200, "thorough": 3000, "shards": 2, "bin": True},
+        {"name": "C02_BIN", "test": "TestC02_BIN", "quick": 200, "thorough": 8000, "shards": 2, "bin": True},
         {"name": "C02_FUZZ", "test": "FuzzPAACookie", "quick": 0, "thorough": 0, "shards": 1, "fuzz": True, "fuzztime_thorough": "120s", "exclusive": True},
     ],
     "C03": [
@@ -17,26 +17,26 @@ UNITS = {
         {"name": "C03_BIN", "test": "TestC03_BIN", "quick": 60, "thorough": 800, "shards": 4, "bin": True},
     ],
     "C04": [
-        {"name": "C04_INP", "test": "TestC04_INP", "quick": 3000, "thorough": 60000, "shards": 12},
+        {"name": "C04_INP", "test": "TestC04_INP", "quick": 3000, "thorough": 120000, "shards": 12},
         {"name": "C04_BIN", "test": "TestC04_BIN", "quick": 300, "thorough": 6000, "shards": 4, "bin": True},
     ],
     "C05": [
-        {"name": "C05_BIN", "test": "TestC05_BIN", "quick": 480, "thorough": 4000, "shards": 8, "bin": True},
+        {"name": "C05_BIN", "test": "TestC05_BIN", "quick": 480, "thorough": 40000, "shards": 8, "bin": True},
     ],
     "C06": [
-        {"name": "C06_INP", "test": "TestC06_INP", "quick": 1500, "thorough": 20000, "shards": 12},
-        {"name": "C06_BIN", "test": "TestC06_BIN", "quick": 200, "thorough": 2000, "shards": 4, "bin": True},
+        {"name": "C06_INP", "test": "TestC06_INP", "quick": 1500, "thorough": 60000, "shards": 12},
+        {"name": "C06_BIN", "test": "TestC06_BIN", "quick": 200, "thorough": 6000, "shards": 4, "bin": True},
         {"name": "C06_STALL", "test": "TestC06_STALL", "quick": 32, "thorough": 400, "shards": 8},
     ],
     "C07": [
-        {"name": "C07_INP", "test": "TestC07_INP", "quick": 240, "thorough": 4000, "shards": 8},
-        {"name": "C07_BIN", "test": "TestC07_BIN", "quick": 60, "thorough": 800, "shards": 4, "bin": True},
+        {"name": "C07_INP", "test": "TestC07_INP", "quick": 240, "thorough": 10000, "shards": 8},
+        {"name": "C07_BIN", "test": "TestC07_BIN", "quick": 60, "thorough": 2000, "shards": 4, "bin": True},
     ],
     "C08": [
         {"name": "C08_INP", "test": "TestC08_INP", "quick": 3000, "thorough": 60000, "shards": 16},
     ],
     "C09": [
-        {"name": "C09_RACE", "test": "TestC09_RACE", "quick": 60, "thorough": 900, "shards": 6, "bin": True, "race": True, "budget_quick": 900},
+        {"name": "C09_RACE", "test": "TestC09_RACE", "quick": 60, "thorough": 6000, "shards": 6, "bin": True, "race": True, "budget_quick": 900},
     ],
     "C10": [
         {"name": "C10_PKT", "test": "TestC10_PKT", "quick": 3000, "thorough": 100000, "shards": 8},
@@ -58,36 +58,36 @@ UNITS = {
         {"name": "C11_BIN", "test": "TestC11_BIN", "quick": 120, "thorough": 1500, "shards": 4, "bin": True, "shrink": "60s"},
     ],
     "C12": [
-        {"name": "C12_BIN", "test": "TestC12_BIN", "quick": 400, "thorough": 8000, "shards": 8, "bin": True},
+        {"name": "C12_BIN", "test": "TestC12_BIN", "quick": 400, "thorough": 30000, "shards": 8, "bin": True},
     ],
     "C13": [
-        {"name": "C13_BIN", "test": "TestC13_BIN", "quick": 300, "thorough": 6000, "shards": 6, "bin": True},
+        {"name": "C13_BIN", "test": "TestC13_BIN", "quick": 300, "thorough": 15000, "shards": 6, "bin": True},
         {"name": "C13_IDENT", "test": "TestC13_IDENT", "quick": 5000, "thorough": 100000, "shards": 2},
         {"name": "C13_EXPIRY", "test": "TestC13_EXPIRY", "quick": 0, "thorough": 2, "shards": 2, "bin": True},
     ],
     "C14": [
-        {"name": "C14_FN", "test": "TestC14_FN", "quick": 40000, "thorough": 800000, "shards": 8},
+        {"name": "C14_FN", "test": "TestC14_FN", "quick": 40000, "thorough": 3000000, "shards": 8},
         {"name": "C14_FUZZ", "test": "FuzzNTLMMessage", "quick": 0, "thorough": 0, "shards": 1, "fuzz": True, "fuzztime_thorough": "120s", "exclusive": True},
     ],
     "C15": [
-        {"name": "C15_FN", "test": "TestC15_FN", "quick": 10000, "thorough": 200000, "shards": 8},
-        {"name": "C15_BIN", "test": "TestC15_BIN", "quick": 150, "thorough": 2000, "shards": 2, "bin": True},
+        {"name": "C15_FN", "test": "TestC15_FN", "quick": 10000, "thorough": 600000, "shards": 8},
+        {"name": "C15_BIN", "test": "TestC15_BIN", "quick": 150, "thorough": 6000, "shards": 2, "bin": True},
         {"name": "C15_FUZZ", "test": "FuzzUserToken", "quick": 0, "thorough": 0, "shards": 1, "fuzz": True, "fuzztime_thorough": "120s", "exclusive": True},
     ],
     "C16": [
-        {"name": "C16_INP", "test": "TestC16_INP", "quick": 4000, "thorough": 40000, "shards": 12},
-        {"name": "C16_BIN", "test": "TestC16_BIN", "quick": 60, "thorough": 400, "shards": 4, "bin": True},
+        {"name": "C16_INP", "test": "TestC16_INP", "quick": 4000, "thorough": 120000, "shards": 12},
+        {"name": "C16_BIN", "test": "TestC16_BIN", "quick": 60, "thorough": 1600, "shards": 4, "bin": True},
     ],
     "C18": [
-        {"name": "C18_START", "test": "TestC18_START", "quick": 400, "thorough": 8000, "shards": 8, "bin": True},
-        {"name": "C18_LOAD", "test": "TestC18_LOAD", "quick": 2000, "thorough": 40000, "shards": 2},
-        {"name": "C18_PAIR", "test": "TestC18_PAIR", "quick": 24, "thorough": 200, "shards": 4, "bin": True},
+        {"name": "C18_START", "test": "TestC18_START", "quick": 400, "thorough": 30000, "shards": 8, "bin": True},
+        {"name": "C18_LOAD", "test": "TestC18_LOAD", "quick": 2000, "thorough": 100000, "shards": 2},
+        {"name": "C18_PAIR", "test": "TestC18_PAIR", "quick": 24, "thorough": 600, "shards": 4, "bin": True},
     ],
     "C19": [
-        {"name": "C19_MAP", "test": "TestC19_MAP", "quick": 8000, "thorough": 150000, "shards": 4},
-        {"name": "C19_BUILDER", "test": "TestC19_BUILDER", "quick": 4000, "thorough": 80000, "shards": 4},
-        {"name": "C19_TEMPLATE", "test": "TestC19_TEMPLATE", "quick": 3000, "thorough": 60000, "shards": 4},
-        {"name": "C19_PARSE", "test": "TestC19_PARSE", "quick": 8000, "thorough": 150000, "shards": 4},
+        {"name": "C19_MAP", "test": "TestC19_MAP", "quick": 8000, "thorough": 300000, "shards": 4},
+        {"name": "C19_BUILDER", "test": "TestC19_BUILDER", "quick": 4000, "thorough": 160000, "shards": 4},
+        {"name": "C19_TEMPLATE", "test": "TestC19_TEMPLATE", "quick": 3000, "thorough": 120000, "shards": 4},
+        {"name": "C19_PARSE", "test": "TestC19_PARSE", "quick": 8000, "thorough": 300000, "shards": 4},
         {"name": "C19_FUZZ", "test": "FuzzRDPParse", "quick": 0, "thorough": 0, "shards": 1, "fuzz": True, "fuzztime_thorough": "120s", "exclusive": True},
     ],
     "C20": [
